@@ -193,4 +193,277 @@ theorem ovl_inside (p : Cell) (a c : Rat) (hp : p.1 ≤ p.2) (ha : a ≤ p.1) (h
   simp only
   split_ifs <;> linarith
 
+
+/-! ### sums over a tessellation -/
+
+def sumL : List Rat → Rat
+  | [] => 0
+  | a :: l => a + sumL l
+
+theorem sumL_perm {l₁ l₂ : List Rat} (h : l₁.Perm l₂) : sumL l₁ = sumL l₂ := by
+  induction h with
+  | nil => rfl
+  | cons a _ ih => simp only [sumL, ih]
+  | swap a b l => simp only [sumL]; ring
+  | trans _ _ ih₁ ih₂ => rw [ih₁, ih₂]
+
+theorem sumTo_getD {α : Type} (l : List α) (d : α) (g : α → Rat) :
+    sumTo l.length (fun j => g (l.getD j d)) = sumL (l.map g) := by
+  induction l with
+  | nil => rfl
+  | cons a l ih =>
+    rw [List.length_cons, sumTo_succ_front]
+    simp only [List.getD_cons_zero, List.getD_cons_succ, List.map_cons, sumL, ih]
+
+theorem strictSorted_tail {a : Rat} {xs : List Rat} (h : StrictSorted (a :: xs)) : StrictSorted xs := by
+  cases xs with
+  | nil => trivial
+  | cons b t => exact h.2
+
+theorem le_lastOr : ∀ (xs : List Rat) (a : Rat), StrictSorted (a :: xs) → a ≤ lastOr a xs
+  | [], a, _ => by simp [lastOr]
+  | b :: t, a, h => by
+    have h1 : a < b := h.1
+    have h2 := le_lastOr t b h.2
+    simp only [lastOr]; linarith
+
+/-- the overlaps of `p` with the cells of a chain add up to the overlap with the whole segment -/
+theorem chain_sum (p : Cell) (hp : p.1 ≤ p.2) : ∀ (xs : List Rat) (a : Rat), StrictSorted (a :: xs) →
+    sumL ((chainCells (a :: xs)).map (ovl p)) = ovl p (a, lastOr a xs)
+  | [], a, _ => by simp [chainCells, sumL, lastOr, ovl_degenerate p a hp]
+  | b :: t, a, h => by
+    have ih := chain_sum p hp t b h.2
+    have h1 : a < b := h.1
+    have h2 := le_lastOr t b h.2
+    simp only [chainCells, List.map_cons, sumL, lastOr, ih]
+    exact ovl_add p a b (lastOr b t) hp (le_of_lt h1) h2
+
+/-- every cell of a chain lies inside the segment and has positive length -/
+theorem chain_mem_bounds : ∀ (xs : List Rat) (a : Rat), StrictSorted (a :: xs) →
+    ∀ q ∈ chainCells (a :: xs), a ≤ q.1 ∧ q.1 < q.2 ∧ q.2 ≤ lastOr a xs
+  | [], a, _, q, hq => by simp [chainCells] at hq
+  | b :: t, a, h, q, hq => by
+    have h1 : a < b := h.1
+    have h2 := le_lastOr t b h.2
+    simp only [chainCells, List.mem_cons] at hq
+    rcases hq with rfl | hq
+    · exact ⟨le_refl _, h1, h2⟩
+    · have := chain_mem_bounds t b h.2 q hq
+      simp only [lastOr]
+      exact ⟨by linarith [this.1], this.2.1, this.2.2⟩
+
+theorem cellAt_mem (l : List Cell) (i : Nat) (hi : i < l.length) : cellAt l i ∈ l := by
+  unfold cellAt
+  rw [List.getD_eq_getElem?_getD, List.getElem?_eq_getElem hi]
+  exact List.getElem_mem hi
+
+/-- Σ_j overlap(p, old_j) = |p| for a cell `p` inside the segment tessellated by `old` -/
+theorem tess_sum (oldC : List Cell) (a : Rat) (ys : List Rat) (hold : Tessellates oldC a ys)
+    (p : Cell) (hp : p.1 ≤ p.2) (ha : a ≤ p.1) (hb : p.2 ≤ lastOr a ys) :
+    sumTo oldC.length (fun j => ovl p (cellAt oldC j)) = len p := by
+  unfold cellAt
+  rw [sumTo_getD oldC (0, 0) (ovl p), sumL_perm (hold.1.map (ovl p)), chain_sum p hp ys a hold.2,
+    ovl_inside p a _ hp ha hb]
+
+
+/-! ### blocks: the per-side structure -/
+
+theorem ent_table' (r c : Nat) (f : Nat → Nat → Rat) (i j : Nat) :
+    (table r c f).ent i j = if i < r ∧ j < c then f i j else 0 := by
+  by_cases hi : i < r
+  · by_cases hj : j < c
+    · rw [ent_table r c f i j hi hj, if_pos ⟨hi, hj⟩]
+    · rw [ent_table_col_oob r c f i j (Nat.le_of_not_lt hj), if_neg (fun h => hj h.2)]
+  · rw [ent_table_row_oob r c f i j (Nat.le_of_not_lt hi), if_neg (fun h => hi h.1)]
+
+@[simp] theorem vcat_r (A B : Mat) : (A.vcat B).r = A.r + B.r := rfl
+@[simp] theorem vcat_c (A B : Mat) : (A.vcat B).c = A.c := rfl
+@[simp] theorem diag2_r (A B : Mat) : (A.diag2 B).r = A.r + B.r := rfl
+@[simp] theorem diag2_c (A B : Mat) : (A.diag2 B).c = A.c + B.c := rfl
+
+/-- block-diagonal times stacked = stacked products: the sides do not mix (`update_mortar`) -/
+theorem diag2_mul_vcat (A B S T : Mat) (h1 : A.c = S.r) (h2 : B.c = T.r) (h3 : S.c = T.c) :
+    (A.diag2 B).mul (S.vcat T) = (A.mul S).vcat (B.mul T) := by
+  show table (A.r + B.r) S.c _ = table (A.r + B.r) S.c _
+  apply table_congr
+  intro i j hi hj
+  simp only [diag2_c]
+  rw [sumTo_split]
+  by_cases hiA : i < A.r
+  · rw [if_pos (show i < (A.mul S).r from hiA), ent_mul A S i j hiA hj]
+    have e2 : sumTo B.c (fun k => (A.diag2 B).ent i (A.c + k) * (S.vcat T).ent (A.c + k) j) = 0 := by
+      apply sumTo_eq_zero
+      intro k hk
+      have : (A.diag2 B).ent i (A.c + k) = 0 := by
+        unfold Mat.diag2
+        rw [ent_table _ _ _ i (A.c + k) hi (by omega), if_pos hiA, if_neg (by omega)]
+      rw [this]; ring
+    rw [e2, add_zero]
+    apply sumTo_congr
+    intro k hk
+    have e3 : (A.diag2 B).ent i k = A.ent i k := by
+      unfold Mat.diag2
+      rw [ent_table _ _ _ i k hi (by omega), if_pos hiA, if_pos hk]
+    have e4 : (S.vcat T).ent k j = S.ent k j := by
+      unfold Mat.vcat
+      rw [ent_table _ _ _ k j (by omega) hj, if_pos (by omega)]
+    rw [e3, e4]
+  · rw [if_neg (show ¬ i < (A.mul S).r from hiA), show i - (A.mul S).r = i - A.r from rfl, ent_mul B T (i - A.r) j (by omega) (by omega)]
+    have e1 : sumTo A.c (fun k => (A.diag2 B).ent i k * (S.vcat T).ent k j) = 0 := by
+      apply sumTo_eq_zero
+      intro k hk
+      have : (A.diag2 B).ent i k = 0 := by
+        unfold Mat.diag2
+        rw [ent_table _ _ _ i k hi (by omega), if_neg hiA, if_pos hk]
+      rw [this]; ring
+    rw [e1, zero_add]
+    apply sumTo_congr
+    intro k hk
+    have e3 : (A.diag2 B).ent i (A.c + k) = B.ent (i - A.r) k := by
+      unfold Mat.diag2
+      rw [ent_table _ _ _ i (A.c + k) hi (by omega), if_neg hiA, if_neg (by omega)]
+      congr 1; omega
+    have e4 : (S.vcat T).ent (A.c + k) j = T.ent k j := by
+      unfold Mat.vcat
+      rw [ent_table _ _ _ (A.c + k) j (by omega) hj, if_neg (by omega)]
+      congr 1; omega
+    rw [e3, e4]
+
+/-- stacked times a matrix = stacked products (`update_primary`) -/
+theorem vcat_mul (P Q S : Mat) (hc : P.c = Q.c) : (P.vcat Q).mul S = (P.mul S).vcat (Q.mul S) := by
+  show table (P.r + Q.r) S.c _ = table (P.r + Q.r) S.c _
+  apply table_congr
+  intro i j hi hj
+  simp only [vcat_c]
+  by_cases hiP : i < P.r
+  · rw [if_pos (show i < (P.mul S).r from hiP), ent_mul P S i j hiP hj]
+    apply sumTo_congr
+    intro k hk
+    have : (P.vcat Q).ent i k = P.ent i k := by
+      unfold Mat.vcat
+      rw [ent_table _ _ _ i k hi hk, if_pos hiP]
+    rw [this]
+  · rw [if_neg (show ¬ i < (P.mul S).r from hiP), show i - (P.mul S).r = i - P.r from rfl, ent_mul Q S (i - P.r) j (by omega) hj, ← hc]
+    apply sumTo_congr
+    intro k hk
+    have : (P.vcat Q).ent i k = Q.ent (i - P.r) k := by
+      unfold Mat.vcat
+      rw [ent_table _ _ _ i k hi hk, if_neg hiP]
+    rw [this]
+
+
+
+theorem vstack_c (c : Nat) : ∀ (Ps : List Mat), (∀ P ∈ Ps, P.c = c) → (vstack c Ps).c = c
+  | [], _ => rfl
+  | P :: _, h => by simp only [vstack, vcat_c]; exact h P (List.mem_cons_self)
+
+def sumNat : List Nat → Nat
+  | [] => 0
+  | a :: l => a + sumNat l
+
+theorem vstack_r (c : Nat) : ∀ (Ps : List Mat), (vstack c Ps).r = sumNat (Ps.map (·.r))
+  | [] => rfl
+  | P :: Ps => by simp only [vstack, vcat_r, List.map_cons, sumNat, vstack_r c Ps]
+
+theorem blockDiag_c : ∀ (Ms : List Mat), (blockDiag Ms).c = sumNat (Ms.map (·.c))
+  | [] => rfl
+  | M :: Ms => by simp only [blockDiag, diag2_c, List.map_cons, sumNat, blockDiag_c Ms]
+
+/-- `blockDiag` of the per-side matrices times the stack of per-side blocks is the stack of the
+    per-side products -/
+theorem blockDiag_mul_vstack (c : Nat) : ∀ (l : List (Mat × Mat)),
+    (∀ x ∈ l, x.1.c = x.2.r ∧ x.2.c = c) →
+    (blockDiag (l.map (·.1))).mul (vstack c (l.map (·.2))) = vstack c (l.map fun x => x.1.mul x.2)
+  | [], _ => by
+    show table 0 c _ = table 0 c _
+    apply table_congr
+    intro i j hi _
+    omega
+  | x :: l, h => by
+    have hx := h x (List.mem_cons_self)
+    have hl : ∀ y ∈ l, y.1.c = y.2.r ∧ y.2.c = c := fun y hy => h y (List.mem_cons_of_mem _ hy)
+    have ih := blockDiag_mul_vstack c l hl
+    simp only [List.map_cons, blockDiag, vstack]
+    rw [diag2_mul_vcat _ _ _ _ hx.1 ?_ ?_, ih]
+    · rw [blockDiag_c, vstack_r]
+      have : ∀ (l : List (Mat × Mat)), (∀ y ∈ l, y.1.c = y.2.r ∧ y.2.c = c) →
+          sumNat ((l.map (·.1)).map (·.c)) = sumNat ((l.map (·.2)).map (·.r)) := by
+        intro l
+        induction l with
+        | nil => intro _; rfl
+        | cons y l ih =>
+          intro h
+          simp only [List.map_cons, sumNat]
+          rw [(h y (List.mem_cons_self)).1, ih (fun z hz => h z (List.mem_cons_of_mem _ hz))]
+      exact this l hl
+    · rw [hx.2, vstack_c c _ (by
+        intro P hP
+        rcases List.mem_map.mp hP with ⟨y, hy, rfl⟩
+        exact (hl y hy).2)]
+
+theorem vstack_mul (c : Nat) (S : Mat) : ∀ (Ps : List Mat), (∀ P ∈ Ps, P.c = c) →
+    (vstack c Ps).mul S = vstack S.c (Ps.map (·.mul S))
+  | [], _ => by
+    show table 0 S.c _ = table 0 S.c _
+    apply table_congr
+    intro i j hi _
+    omega
+  | P :: Ps, h => by
+    have hP := h P (List.mem_cons_self)
+    have hl : ∀ Q ∈ Ps, Q.c = c := fun Q hQ => h Q (List.mem_cons_of_mem _ hQ)
+    simp only [vstack, List.map_cons]
+    rw [vcat_mul _ _ _ (by rw [hP, vstack_c c Ps hl]), vstack_mul c S Ps hl]
+
+
+
+theorem bd_aux {α : Type} (c : Nat) (l : List α) (f g : α → Mat)
+    (h : ∀ x ∈ l, (f x).c = (g x).r ∧ (g x).c = c) :
+    (blockDiag (l.map f)).mul (vstack c (l.map g)) = vstack c (l.map fun x => (f x).mul (g x)) := by
+  have := blockDiag_mul_vstack c (l.map fun x => (f x, g x)) (by
+    intro y hy
+    rcases List.mem_map.mp hy with ⟨x, hx, rfl⟩
+    exact h x hx)
+  simpa [List.map_map, Function.comp_def] using this
+
+theorem vs_aux {α : Type} (c : Nat) (S : Mat) (l : List α) (g : α → Mat) (h : ∀ x ∈ l, (g x).c = c) :
+    (vstack c (l.map g)).mul S = vstack S.c (l.map fun x => (g x).mul S) := by
+  have := vstack_mul c S (l.map g) (by
+    intro P hP
+    rcases List.mem_map.mp hP with ⟨x, hx, rfl⟩
+    exact h x hx)
+  simpa [List.map_map, Function.comp_def] using this
+
+
+theorem ent_mul' (A B : Mat) (i j : Nat) :
+    (A.mul B).ent i j = if i < A.r ∧ j < B.c then sumTo A.c (fun k => A.ent i k * B.ent k j) else 0 :=
+  ent_table' _ _ _ i j
+
+theorem ent_mul_zero (A B : Mat) (i j : Nat) (h : ∀ k, k < A.c → A.ent i k = 0 ∨ B.ent k j = 0) :
+    (A.mul B).ent i j = 0 := by
+  rw [ent_mul']
+  split
+  · apply sumTo_eq_zero
+    intro k hk
+    rcases h k hk with h0 | h0 <;> rw [h0] <;> ring
+  · rfl
+
+
+theorem match1d_r (n o : List Cell) (s : Scaling) : (match1d n o s).r = n.length := by cases s <;> rfl
+theorem match1d_c (n o : List Cell) (s : Scaling) : (match1d n o s).c = o.length := by cases s <;> rfl
+
+theorem identity_rowSum (n i : Nat) (hi : i < n) : (Mat.identity n).rowSum i = 1 := by
+  unfold Mat.rowSum Mat.identity
+  simp only [table_c]
+  rw [sumTo_congr _ _ _ (fun j hj => ent_table _ _ _ i j hi hj),
+    sumTo_single n i hi _ (fun j _ hne => if_neg (fun h => hne h.symm))]
+  simp
+
+theorem identity_colSum (n j : Nat) (hj : j < n) : (Mat.identity n).colSum j = 1 := by
+  unfold Mat.colSum Mat.identity
+  simp only [table_r]
+  rw [sumTo_congr _ _ _ (fun i hi => ent_table _ _ _ i j hi hj),
+    sumTo_single n j hj _ (fun i _ hne => if_neg hne)]
+  simp
+
+
 end PorepyVerif.C26
